@@ -45,7 +45,7 @@ PROPS = {
                 text="Histories of up to 10 submissions (fresh with hour offset -3..+3, byte-identical replays, 2-4 simultaneous copies) with virtual-time gaps of 0 .. 3 h 10 min and starts within +-2 s of an hour boundary against one real server factory; reference clients verify the reply themselves; model: each blob accepted at most once, fresh blobs accepted iff stamped hour within +-1 of the server hour, reply verifies only under the client's hour, rejected submissions get silence.",
                 note="Trusted: simulator, reference implementation, acceptance model. Monotone clock only; the capacity bound is exercised in C11.",
                 technique=TECH + "history generation against an executable acceptance model on a virtual clock"),
-    "C05": dict(engine="wire", quick=40, thorough=600, level="exploration", design="DESIGN.md section 4, C05",
+    "C05": dict(engine="wire", engines=["wire", "woven"], quick=40, thorough=600, level="exploration", design="DESIGN.md section 4, C05",
                 text="A reference peer (which knows frame boundaries) sends 3-8 frames of all size classes followed by three full frames; one attacker edit per run (bit flip in length / tag / body, delete, duplicate, swap, replay of an earlier frame, junk insertion, truncation then EOF or silence) under all chunkings against a real client or server; oracle: delivered bytes are a prefix of the plaintext that never extends past the damaged frame, and Read reports an error once the damage plus two maximum frames were delivered.",
                 note="Trusted: simulator, reference implementation. Real code: obfs4 framing / packet / Read path in both roles.",
                 technique=TECH + "on-path stream tampering faults with prefix-model oracle"),
